@@ -1,6 +1,7 @@
 """C04  T-norms and S-norms compute their formulas and obey the norm laws."""
 from __future__ import annotations
 
+import numpy as np
 import z3
 
 from spec import norms as spec
@@ -26,8 +27,8 @@ OUTSIDE = ["rounding of the multiplicative norms (a+b-a*b may exceed 1 by an ulp
 ASSUMPTIONS = ["a, b, c in [0,1]", "Mode R: IEEE specials over exact reals (no rounding)"]
 STUBS = []
 
-LAWS_T = ["formula", "range", "commutative", "monotone", "associative", "identity", "annihilator", "le_min", "arrays", "kinds"]
-LAWS_S = ["formula", "range", "commutative", "monotone", "associative", "identity", "annihilator", "ge_max", "arrays", "kinds"]
+LAWS_T = ["formula", "range", "commutative", "monotone", "associative", "identity", "annihilator", "le_min", "arrays", "kinds", "fresh"]
+LAWS_S = ["formula", "range", "commutative", "monotone", "associative", "identity", "annihilator", "ge_max", "arrays", "kinds", "fresh"]
 F_EXACT = ["Minimum", "Maximum", "BoundedDifference", "BoundedSum", "DrasticProduct", "DrasticSum",
            "NilpotentMinimum", "NilpotentMaximum", "UnboundedSum"]
 
@@ -61,6 +62,9 @@ def _replay(name, law, other=None):
                       "bad = not (same(r, [f(p, q) for p, q in zip(X, Y)], tol) and same(r2, [[f(p, q) for q in Y] for p in X[:2]], tol)"
                       " and same(A, X) and same(B, Y) and same(col, [[X[0]], [X[1]]]) and same(row, [Y]))",
             "dual": f"M = fl.{other}(); bad = not same(float(M.compute(a,b)), 1 - f(1-a,1-b), tol)" if other else "bad = False",
+            "fresh": "r1 = np.asarray(N.compute(np.array([a, b]), np.array([c, a2])), dtype=float); r1 *= 0.5; r2 = N.compute(np.array([c, a2]), np.array([a, b]))\n"
+                     "z1 = np.asarray(N.compute(np.array(a), np.array(b)), dtype=float); z1 *= 0.5; z2 = N.compute(np.array(b), np.array(a))\n"
+                     "bad = not (same(r2, [spec(c, a), spec(a2, b)], tol) and same(z2, spec(b, a), tol))",
             "kinds": "pb, qb = bool(v.get('p', False)), bool(v.get('q', False))\n"
                      "r1 = N.compute(np.bool_(pb), np.bool_(qb)); r2 = N.compute(np.array([pb, qb]), np.array([qb, qb])); r3 = N.compute([a, b], [c, a2]); r4 = N.compute((a, b), np.array([c, a2]))\n"
                      "bad = not (same(r1, spec(float(pb), float(qb)), tol) and same(r2, [spec(float(pb), float(qb)), spec(float(qb), float(qb))], tol)"
@@ -97,6 +101,17 @@ def _ob_law(name, law, is_t, tier):
                 return (N.compute(a, one if is_t else zero), N.compute(one if is_t else zero, a))
             if law == "annihilator":
                 return (N.compute(a, zero if is_t else one), N.compute(zero if is_t else one, a))
+            if law == "fresh":
+                # the result of one call belongs to the caller: scaling it in place must not show in the result of the next call
+                r1 = N.compute(sym_array([a, b]), sym_array([c, a2]))
+                if isinstance(r1, (core.SymArray, np.ndarray)):
+                    r1 *= 0.5
+                r2 = N.compute(sym_array([c, a2]), sym_array([a, b]))
+                z1 = N.compute(core.sym0d(a), core.sym0d(b))
+                if isinstance(z1, (core.SymArray, np.ndarray)):
+                    z1 *= 0.5
+                z2 = N.compute(core.sym0d(b), core.sym0d(a))
+                return r2, z2
             if law == "kinds":
                 # operands that are not float64: crisp (boolean) degrees - whose own `+`/`*` are logical or/and - and Python sequences
                 P, Q = core.SymBool(z3.Bool("p")), core.SymBool(z3.Bool("q"))
@@ -154,6 +169,13 @@ def _ob_law(name, law, is_t, tier):
             elif law == "ge_max":
                 x = tf(r[0])
                 ob.prove(pre, p, z3.And(x.v >= a.v, x.v >= b.v), f"{name}/ge_max", ins, rp)
+            elif law == "fresh":
+                r2, z2 = r
+                e2 = core.elements(r2)
+                if len(e2) != 2:
+                    ob.prove(pre, p, False, f"{name}/fresh/shape {kind_of(r2)}", ins, rp)
+                    continue
+                ob.prove(pre, p, z3.And(is_val(e2[0], f(c.v, a.v)), is_val(e2[1], f(a2.v, b.v)), is_val(core.elements(z2)[0], f(b.v, a.v))), f"{name}/fresh-results", ins, rp)
             elif law == "kinds":
                 r1, r2, r3, r4, P, Q = r
                 ins3 = dict(ins)
